@@ -20,7 +20,7 @@ MANIFEST = dict(
          'Bytes: what VPKFileSystem.open_bin/open_str read is a translated expression over the FileInfo, and FileInfo.read() itself is translated from vpk.py with the slice displacements found in the source; expressions recognised as whole return the stored bytes for every split between preload and rest, for the directory tail, a numbered archive and a single-file VPK, wherever the rest lies (c19_vpk_content_whole_all_placements, c19_vpk_open_same_bytes, c19_vpk_reader_whole_all_placements, c19_vpk_open_through_reader); the preload shortcut and the one-byte-short slice are refuted. '
          'RawFileSystem, from the operations that reach _resolve_path: an exact-case name in any spelling and either slash finds the stored file in the directory backend and in every folding backend; its walk lists exactly the files below the normalised folder and every listed name looks up. '
          'walk_folder with a sound form (dictionary source, folded key compared with a folder-boundary prefix) lists exactly the surviving files inside the folder (empty folder = all), every listed name looks up to that file, no name twice; string-prefix, root-is-dot, case-sensitive, container-prefilter (VPK.fileinfos) and container-iteration forms are refuted by kernel-computed witnesses. '
-         'FileSystemChain: c19_chain_every_form_spec - for every query string and every list of members of whatever backend kind (no premise on the prefixes) chain[q] / _get_file(q), the resolution of open_bin / open_str(q), q in chain / _file_exists(q) in every recognised sound shape and the bytes read from the handle are the specification function chain_spec (first member, in priority order, whose files contain subfolder/name up to case, slash kind and redundant segments); hence the backend kind of a member is unobservable through a chain (c19_chain_backend_kind_unobservable); a _file_exists loop that re-assigns the joined name is refuted (c19_chain_exists_carried_name_refuted). Priority insertion first / plain insertion last (both add_sys branches translated); the de-duplicated walk lists each folded name once keeping the first member\'s entry, the dict-overwrite shape is refuted. '
+         'FileSystemChain: c19_chain_every_form_spec - for every query string and every list of members of whatever backend kind (no premise on the prefixes) chain[q] / _get_file(q), the resolution of open_bin / open_str(q), q in chain / _file_exists(q) in every recognised sound shape and the bytes read from the handle are the specification function chain_spec (first member, in priority order, whose files contain subfolder/name up to case, slash kind and redundant segments); hence the backend kind of a member is unobservable through a chain (c19_chain_backend_kind_unobservable); chains that also contain directory backends answer like chain_spec on queries that are exact for those members (c19_chain_with_directory_members_spec, premise shown necessary); a _file_exists loop that re-assigns the joined name is refuted (c19_chain_exists_carried_name_refuted). Priority insertion first / plain insertion last (both add_sys branches translated); the de-duplicated walk lists each folded name once keeping the first member\'s entry, the dict-overwrite shape is refuted. '
          'Composition (c19_chain_walk_lookup_closed, c19_chain_walk_complete, c19_chain_walk_every_entry_spec, c19_chain_walk_lists_spec, c19_chain_iter_lists_spec): for members with empty or clean prefixes and an empty or clean folder, every (path, File) the de-duplicated walk lists is the specification\'s answer for path (it looks up in every form and reads the listed bytes), and every clean name the specification serves inside the folder is listed with that File; iter(chain) lists every clean name served. All of these are re-instantiated at the generated configuration on every run. '
          'The generated model is compared with the real Virtual/Zip/VPK/Raw backends (lookups in all spellings incl. open_str, VPKs written in 7 data placements, walks of normalised and un-normalised folders) and with chains ([], in, open_bin, open_str, walk_folder, walk_folder_repeat); a reference oracle written from the property checks every public form on the four real backends and on chains of up to 4 members in all orderings, file contents for 5 VPK placement classes with sizes around the preload limits (1024, 65535), plus non-ASCII case folding for the in-memory and zip backends.',
     note='Trusted: Coq kernel + vm_compute, translate/c19_walk.py (its canonicalisation rewrites are meant to be equivalences of Python programs; on every run the rewritten filesys.py is compiled, executed and compared with the real classes on every lookup form, walks and chains - obligations translate:canonical-form-runs / -is-equivalent), zipfile, the VPK writer of vpk.py (where the bytes are put; the reader is translated; VPK.fileinfos only through a shape check), which numbered archive file is opened (C13), the OS directory semantics (RawFileSystem: exact names via os.path.isfile/open/os.walk after abspath; RootEscapeError belongs to C18). Model restrictions: ASCII case folding only in the model (non-ASCII casefold is searched on the in-memory and zip backends; VPK names are ASCII); stored names are clean relative "/" paths; ".." segments are modelled (full posixpath.normpath) and compared by correspondence but the general noise theorem covers only empty and "." segments; the walk/composition theorems assume empty or clean prefixes and folders (other spellings: correspondence and oracle) - the chain lookup theorem has no such premise; absolute paths are outside the statement; reading a slice of the wrong home is modelled as returning nothing (such readers are never recognised as whole). Which of two stored names differing only in case wins depends on container order (c19_lookup_order_matters_for_case_duplicates); VPK regroups files, see known finding case-duplicate-winner-vpk-differs. Observations (not violations): RawFileSystem.open_bin of a directory raises IsADirectoryError where the others raise FileNotFoundError; File.path of a lookup differs per backend.',
@@ -159,6 +159,25 @@ Proof.
   - apply c19_vpk_open_through_reader; [vm_compute; reflexivity|]. destruct Hc as [<-|[<-|[]]]; vm_compute; reflexivity.
 Qed.
 Print Assumptions today_vpk_reader_whole.
+(* chains that also contain today's RawFileSystem (the operations that reach _resolve_path in _get_file): on queries that
+   are exact for the directory members the lookup is the specification *)
+Definition gen_mmember (q : str) (m : mmember) : Prop :=
+  match m with
+  | MFold k => gen_kmember vpk_open_bin_content k
+  | MRaw ops fs p => ops = raw_get_ops /\\ clean_fs fs = true /\\ NoDup (map (fun e => nkey (fst e)) fs)
+                     /\\ exact_or_absent fs (normpath (slash (pjoin p q)))
+  end.
+Theorem today_chain_with_directory_members : forall ms q,
+  Forall (gen_mmember q) ms -> mchain_get ms q = chain_spec (map m_spec ms) q.
+Proof.
+  intros ms q H. apply c19_chain_with_directory_members_spec. eapply Forall_impl; [|exact H].
+  intros [k|ops fs p]; cbn [gen_mmember mmember_ok].
+  - intros [Hb [Hf Hs]]. split; [|split; [exact Hf|]].
+    + destruct Hb as [<-|[<-|[<-|[]]]]; vm_compute; reflexivity.
+    + destruct Hs as [->|[limit [in_dir [_ ->]]]]; [exact I|vm_compute; reflexivity].
+  - intros [-> [Hc [Hn Hx]]]. split; [vm_compute; reflexivity|]. split; [exact Hc|]. split; assumption.
+Qed.
+Print Assumptions today_chain_with_directory_members.
 '''
 
 BACKENDS = ['virtual', 'zip', 'vpk', 'raw']
@@ -1513,7 +1532,7 @@ def run(ck: Ck) -> None:
         fut_thm = pool.submit(ck.theorems, 'Props/C19.v')      # Print Assumptions of every theorem (its obligations are moved to the front below)
         fut_compose = pool.submit(ck.coq_scratch, ''.join(f'Require Import {i}.\n' for i in IMPORTS + ['SV.SM.FsChainProofs', 'SV.SM.FsChainCompose', 'SV.SM.FsChainFormsProofs', 'SV.SM.FsChainWhole', 'SV.Props.C19'])
                                   + INSTANCE_THEOREM, 'inst_compose', 300)
-        fut_forms = pool.submit(ck.coq_scratch, ''.join(f'Require Import {i}.\n' for i in IMPORTS + ['SV.SM.FsChainProofs', 'SV.SM.FsChainCompose', 'SV.SM.FsChainFormsProofs', 'SV.SM.FsChainWhole', 'SV.SM.FsChainReadProofs', 'SV.Props.C19'])
+        fut_forms = pool.submit(ck.coq_scratch, ''.join(f'Require Import {i}.\n' for i in IMPORTS + ['SV.SM.FsChainProofs', 'SV.SM.FsChainCompose', 'SV.SM.FsChainFormsProofs', 'SV.SM.FsChainWhole', 'SV.SM.FsChainReadProofs', 'SV.SM.FsChainMixed', 'SV.Props.C19'])
                                 + INSTANCE_THEOREM_FORMS, 'inst_forms', 300)
         _tc = time.time()
         obs = {}
@@ -1558,7 +1577,7 @@ def run(ck: Ck) -> None:
         ck.obligation('instance-theorem:chain_exists_and_vpk_bytes', rc == 0,
                       'c19_chain_exists_agrees_backends at chain_exists_mode, c19_vpk_open_same_bytes at vpk_open_bin_content / '
                       'vpk_open_str_content, c19_chain_every_form_spec (every lookup form of a chain = the specification) over '
-                      'virtual_cfg / zip_cfg / vpk_cfg, c19_vpk_open_through_reader at vpk_reader' + ('' if rc == 0 else ': ' + out[-400:]))
+                      'virtual_cfg / zip_cfg / vpk_cfg, c19_vpk_open_through_reader at vpk_reader, c19_chain_with_directory_members_spec at raw_get_ops' + ('' if rc == 0 else ': ' + out[-400:]))
         import time as _t
         t0 = _t.time(); corr_backends(ck, root); t1 = _t.time(); corr_chain(ck, root); t2 = _t.time()
         ck.extra['stage_seconds'] = {'translate_build': round(_tb - _ta, 1), 'instance_obligations': round(_td - _tc, 1),
@@ -1647,7 +1666,7 @@ def run(ck: Ck) -> None:
     if any_key('chain-walk-', 'chain-get-', 'walk-virtual-', 'walk-zip-', 'walk-vpk-', 'lookup-virtual-', 'lookup-zip-', 'lookup-vpk-'):
         # the composition theorem needs sound backends, skip-de-duplication and prefix-relative names
         ck.explain('instance-theorem:chain_walk_lookup_closed')
-    if any_key('lookup-virtual-', 'lookup-zip-', 'lookup-vpk-'):
+    if any_key('lookup-virtual-', 'lookup-zip-', 'lookup-vpk-', 'lookup-raw-'):
         # the instance needs every backend to normalise its keys (backend_keys_norm at the generated configuration)
         ck.explain('instance-theorem:chain_exists_and_vpk_bytes')
     if any_key('chain-walk-'):
